@@ -193,3 +193,32 @@ M("C09", "pymbolic/mapper/analysis.py", """    def post_visit(self, expr) -> Non
         self.count += 1""", """    def visit(self, expr) -> bool:
         self.count += 1
         return not isinstance(expr, tuple)""", "node counter does not descend into tuples")
+
+DF = "pymbolic/mapper/differentiator.py"
+M("C10", DF, "            return (df*g-dg*f)/g**2", "            return (df*g+dg*f)/g**2", "quotient rule sign")
+M("C10", DF, "            return g * f**(g-1) * df\n        else:", "            return g * f**(g+1) * df\n        else:", "power rule g+1")
+M("C10", DF, """        return make_f("cos")(*pars)
+    elif func == make_f("cos") and len(pars) == 1:
+        return -make_f("sin")(*pars)""", """        return make_f("cos")(*pars)
+    elif func == make_f("cos") and len(pars) == 1:
+        return make_f("sin")(*pars)""", "cos' = sin")
+M("C10", DF, """        elif (not df):
+            return -f*dg/g**2""", """        elif (not df):
+            return self.rec(f, *args)/g""", "(not df) branch returns the (not dg) formula")
+M("C10", DF, """        if allowed_nonsmoothness in ["continuous", "discontinuous"]:
+            from pymbolic.functions import sign""", """        if allowed_nonsmoothness in ["none", "continuous", "discontinuous"]:
+            from pymbolic.functions import sign""", "fabs allowed under 'none'")
+M("C10", DF, """        if self.allowed_nonsmoothness != "discontinuous":
+            raise ValueError("cannot differentiate 'If' nodes unless \"""",
+  """        if self.allowed_nonsmoothness == "none":
+            raise ValueError("cannot differentiate 'If' nodes unless \"""", "If allowed under 'continuous'")
+M("C10", DF, """        return make_f("tan")(*pars)**2+1""", """        return make_f("tan")(*pars)**2-1""", "tan' = tan^2 - 1")
+M("C10", DF, """    elif func == make_f("expm1") and len(pars) == 1:
+        return make_f("exp")(*pars)""", """    elif func == make_f("expm1") and len(pars) == 1:
+        return make_f("expm1")(*pars)""", "expm1' = expm1")
+M("C10", DF, """                [self.rec_undiff(ch, *args) for ch in expr.children[0:i]]
+                + [self.rec(child, *args)]
+                + [self.rec_undiff(ch, *args) for ch in expr.children[i+1:]]""",
+  """                [self.rec_undiff(ch, *args) for ch in expr.children[0:i]]
+                + [self.rec(child, *args)]
+                + [self.rec_undiff(ch, *args) for ch in expr.children[i+2:]]""", "product rule skips a factor")
